@@ -321,6 +321,12 @@ def gen_spec(rng, case, want=None, shared_tc=False):
         return round(rng.uniform(0.05, 12.0), rng.choice([1, 2, 3]))
 
     def edit(phase):
+        e = edit0(phase)
+        if e.get('op') in ('A', 'M', 'G') and phase != 'pre' and rng.random() < 0.15:
+            e['same'] = rng.choice(['v', 'vin'])      # resolved when the operation is executed
+        return e
+
+    def edit0(phase):
         k = rng.random()
         p, uid = target(phase)
         attr = 'v' if rng.random() < (0.9 if phase == 'pre' else 0.6) else 'i'
@@ -491,6 +497,12 @@ def run_spec(spec, fails):
             continue
         if k in 'AMG' and ext is None and was_setup:
             pass
+        if k in 'AMG' and op.get('same'):
+            # the requested number is the one currently held in the system-base ('v') / input-base ('vin') array of
+            # this very entry (a user who types back a value read from the other representation)
+            pcur = d[op['p']]
+            arr = pcur.v if (op['same'] == 'v' or pcur.vin is None) else pcur.vin
+            op['x'] = float(arr[op['uid']])
         try:
             c0 = dict(calls)
             if k == 'S':
@@ -837,6 +849,48 @@ def run(ctx):
     lap('residual')
     dynamics_effect(ctx, ctx.n(1, 6))
     lap('dynamics')
+    list_param_stream(ctx)
+    lap('list-params')
+
+
+def list_param_stream(ctx):
+    """parameters entered as list literals (switched-shunt blocks `gs`, `bs`: admittance-flagged, with an output
+    converter) on devices whose base differs from the system base: v = vin * k element-wise, and the case export writes
+    the ENTERED lists (reference: the cells of the case file read with pandas, not the System)"""
+    import ast
+    import numpy as np
+    import pandas as pd
+    import andes
+    f = andes.get_case('ieee14/ieee14_shuntsw.xlsx')
+    entered = pd.read_excel(f, sheet_name='ShuntSw')
+    for sn_scale in (1.0, ctx.rng.choice([0.5, 2.0, 0.37])):
+        ss = andes.load(f, setup=False, no_output=True, default_config=True)
+        for i in range(ss.ShuntSw.n):
+            ss.ShuntSw.Sn.v[i] = float(entered['Sn'][i]) * sn_scale
+        ss.setup()
+        spec = {'stream': 'list-params', 'sn_scale': sn_scale}
+        ctx.case(('list-params', sn_scale), spec)
+        from andes.io import json as ajson
+        rows = json.loads(ajson._dump_system(ss, True))['ShuntSw']
+        with Capture() as cap:
+            from andes.io import xlsx
+            xlsx._write_system(ss, None, True)
+        xrows = cap.sheets['ShuntSw']
+        bases = resolved_bases(ss, ss.ShuntSw)
+        for pn in ('gs', 'bs'):
+            par = ss.ShuntSw.__dict__[pn]
+            for i in range(ss.ShuntSw.n):
+                want = [float(x) for x in ast.literal_eval(str(entered[pn][i]))]
+                k = textbook(KINDS[kinds_of(par)[-1]], *bases[i]) if kinds_of(par) else 1.0
+                ctx.count('list_param_entries_checked')
+                if not np.allclose(np.asarray(par.v[i], dtype=float), np.asarray(want) * k, rtol=1e-12, atol=0):
+                    ctx.oracle_fail('pu-coeff-not-textbook', 'ShuntSw.%s[%d]: system-base list %r, entered %r, textbook ratio %r'
+                                    % (pn, i, list(par.v[i]), want, k), spec)
+                for label, cell in (('json', rows[i][pn]), ('xlsx', xrows[pn].tolist()[i])):
+                    got = [float(x) for x in ast.literal_eval(str(cell))]
+                    if len(got) != len(want) or any(abs(a - b) > 1e-12 * (1 + abs(b)) for a, b in zip(got, want)):
+                        ctx.oracle_fail('export-list-param-not-input', 'ShuntSw.%s[%d] (k = %r): the %s export writes %r, the entered '
+                                        'list is %r' % (pn, i, k, label, got, want), spec)
 
 
 def search(ctx):
